@@ -327,7 +327,9 @@ def check_provider(cx, f, rep):
         rep.bad('DISCR-VALUE', where, 'push', 'expected exactly one push of the variant\'s discriminant per iteration, found %d' % len(pushes), f.file, f.line)
         return
     pe = pushes[0]
-    extra = [c for c in pe.ctx if c is not loop and not (c['k'] == 'iflet' and 'Data::Enum' in pat_s(c['pat']))]
+    # `let value = match counter { Some(v) => v, None => return Err(..) }` before the push leaves a "counter is Some" context
+    survived = [c for c in pe.ctx if c['k'] == 'survive' and c['scrut']['k'] == 'Path' and all(pat_s(p_).startswith('Some(') for p_ in c['pats'])]
+    extra = [c for c in pe.ctx if c is not loop and not (c['k'] == 'iflet' and 'Data::Enum' in pat_s(c['pat'])) and not any(c is s_ for s_ in survived)]
     if extra:
         rep.bad('DISCR-VALUE', where, 'push-guards', 'the discriminant of a variant is recorded only under extra conditions: %s' % ctx_s(tuple(extra)), f.file, pe.line)
         return
@@ -336,16 +338,45 @@ def check_provider(cx, f, rep):
         rep.bad('DISCR-VALUE', where, 'push-value', 'pushed value is not the running counter', f.file, pe.line)
         return
     cd = pe.scope.lookup(arg['path']['s'])
-    # form B: the counter is an Option ("the next value, None after i128::MAX"): `let value = counter.unwrap_or(i128::MAX);
-    # values.push(value); counter = value.checked_add(1);` with `counter = Some(<explicit>)` — the same sequence as saturating_add
+    # the counter is an Option ("the value of the next variant, None after i128::MAX"): `let value = counter.ok_or_else(<error>)?;
+    # values.push(value); counter = value.checked_add(1);` with `counter = Some(<explicit>)`.  A variant that would need a value above
+    # i128::MAX is refused; a counter that saturates, wraps or panics there gives two variants one value (or refuses a legal enum).
     opt_value = None
-    if cd is not None and cd.init is not None and cd.init['k'] == 'MethodCall' and cd.init['method'] == 'unwrap_or' and len(cd.init['args']) == 1 \
-            and es(cd.init['args'][0]).replace(' ', '') == 'i128::MAX' and cd.init['recv']['k'] == 'Path' and any(c is loop for c in cd.ctx) and not cd.assigns:
+    init = cd.init if cd is not None else None
+    recv = None
+    refusing = False
+    if init is not None and init['k'] == 'MethodCall' and init['method'] == 'unwrap_or' and len(init['args']) == 1 and init['recv']['k'] == 'Path':
+        recv = init['recv']['path']['s']
+    elif init is not None and init['k'] == 'Match' and init['expr']['k'] == 'Path' and len(init['arms']) == 2:
+        # (N1) `counter.ok_or_else(|| e)?` == `match counter { Some(v) => v, None => return Err(e) }`
+        arms = dict((pat_s(a['pat']).split('(')[0], a) for a in init['arms'])
+        sm, nn = arms.get('Some'), arms.get('None')
+        if sm is not None and nn is not None and not sm.get('guard') and not nn.get('guard') and sm['pat'].get('k') == 'TupleStruct' \
+                and len(sm['pat']['elems']) == 1 and sm['pat']['elems'][0].get('k') == 'Ident' and sm['body']['k'] == 'Path' \
+                and sm['body']['path']['s'] == sm['pat']['elems'][0]['name']:
+            recv = init['expr']['path']['s']
+            nb = nn['body']
+            while nb['k'] == 'Block':
+                st_ = (nb.get('block') or nb).get('stmts') or []
+                if len(st_) != 1 or st_[0]['k'] != 'Expr':
+                    break
+                nb = st_[0]['expr']
+            refusing = nb['k'] == 'Return' and nb.get('expr') is not None and es(nb['expr']).startswith('Err')
+    if cd is not None and recv is not None and any(c is loop for c in cd.ctx) and not cd.assigns:
+        if not refusing:
+            rep.bad('DISCR-VALUE', where, 'counter-overflow', 'a variant after the value i128::MAX is given `%s` instead of being refused: two variants get one discriminant value' % es(cd.init)[:60], f.file, cd.line)
+            return
+        if [c for c in survived if c['scrut']['path']['s'] != recv]:
+            rep.bad('DISCR-VALUE', where, 'push-guards', 'the discriminant of a variant is recorded only under extra conditions: %s' % ctx_s(tuple(survived)), f.file, pe.line)
+            return
         opt_value = cd
-        cd = pe.scope.lookup(cd.init['recv']['path']['s'])
+        cd = pe.scope.lookup(recv)
         if cd is None or cd.init is None or es(cd.init).replace(' ', '') not in ('Some(0)', 'Some(0i128)'):
             rep.bad('DISCR-VALUE', where, 'counter-init', 'the discriminant counter does not start at 0', f.file, cd.line if cd else f.line)
             return
+    elif survived:
+        rep.bad('DISCR-VALUE', where, 'push-guards', 'the discriminant of a variant is recorded only under extra conditions: %s' % ctx_s(tuple(survived)), f.file, pe.line)
+        return
     elif cd is None or cd.init is None or not (cd.init['k'] == 'Lit' and cd.init['lit'].get('digits') == '0'):
         rep.bad('DISCR-VALUE', where, 'counter-init', 'the discriminant counter does not start at 0', f.file, cd.line if cd else f.line)
         return
@@ -369,8 +400,12 @@ def check_provider(cx, f, rep):
             explicit.append((a, txt))
     steps = ('%s.saturating_add(1)' % cd.name, '(%s+1)' % cd.name, '%s.wrapping_add(1)' % cd.name, '%s.checked_add(1)' % cd.name) if opt_value is None \
         else ('%s.checked_add(1)' % opt_value.name,)
+    if opt_value is None and len(incs) == 1 and incs[0][1].replace(' ', '') in steps:
+        rep.bad('DISCR-VALUE', where, 'counter-overflow', 'the counter is advanced by `%s`: after a variant whose value is i128::MAX the next variant repeats that value, wraps or panics instead of being refused' % incs[0][1], f.file, incs[0][0].line)
+        return
     inc_ok = len(incs) == 1 and incs[0][1].replace(' ', '') in steps \
-        and not [c for c in incs[0][0].ctx if c is not loop and not (c['k'] == 'iflet' and 'Data::Enum' in pat_s(c['pat']))]
+        and not [c for c in incs[0][0].ctx if c is not loop and not (c['k'] == 'iflet' and 'Data::Enum' in pat_s(c['pat']))
+                 and not any(c is s_ for s_ in survived)]
     if not inc_ok:
         rep.bad('DISCR-VALUE', where, 'counter-step', 'after recording a variant the counter is not advanced by exactly one on every path (%s)' % [t for _, t in incs], f.file, pe.line)
         return
